@@ -3,6 +3,7 @@ import LexVerif.Spec.StdFloat
 import LexVerif.Spec.Shortest
 import LexVerif.Model.FormatDecimal
 import LexVerif.Model.Ops.ParseInt
+import LexVerif.Model.Ops.ParseIntFormat
 import LexVerif.Model.Ops.FormatError
 import LexVerif.Model.Ops.WriteInt
 import LexVerif.Model.Ops.ParseFloat
@@ -11,6 +12,7 @@ import LexVerif.Model.Ops.WriteFloat
 import LexVerif.Model.Ops.WriteAlgos
 import LexVerif.Model.Ops.ParseAlgos
 import LexVerif.Model.Ops.OptionsValid
+import LexVerif.Model.Ops.ParseFloatAlgo
 import LexVerif.Model.Ops.Slow
 /-!
 # Driver — line-protocol evaluator of the Lean models and specifications
@@ -48,7 +50,7 @@ def specWIbuf (ty : String) (fmt : Format) (feats : Features) (v : Int) (buflen 
   let s := specWI ty fmt feats v
   match IntTy.ofName ty, buflen.toNat? with
   | some t, some n =>
-    if n < LexVerif.Model.WriteInt.bufferSizeConst feats t fmt.mantissaRadix then s ++ " || panic" else s
+    if n < LexVerif.Model.WriteInt.bufferSizeConstFmt feats t fmt.mantissaRadix fmt.requiredMantissaSign then s ++ " || panic" else s
   | _, _ => s
 
 def pOptsOf (a : List String) : POpts :=
@@ -171,8 +173,8 @@ def specOf (feats : Features) (t : List String) : String :=
 Each `Model/Ops/*.lean` exposes `handle : Features → List String → Option String`. -/
 def modelHandlers : List (Features → List String → Option String) :=
   [LexVerif.Model.Ops.OptionsValid.handle, LexVerif.Model.Ops.Slow.handle,
-   LexVerif.Model.Ops.ParseInt.handle, LexVerif.Model.Ops.FormatError.handle, LexVerif.Model.Ops.WriteInt.handle,
-   LexVerif.Model.Ops.ParseFloat.handle, LexVerif.Model.Ops.ParseAlgos.handle, LexVerif.Model.Ops.WriteAlgos.handle,
+   LexVerif.Model.Ops.ParseInt.handle, LexVerif.Model.Ops.FormatError.handle, LexVerif.Model.Ops.ParseIntFormat.handle, LexVerif.Model.Ops.WriteInt.handle,
+   LexVerif.Model.Ops.ParseFloat.handle, LexVerif.Model.Ops.ParseFloatAlgo.handle, LexVerif.Model.Ops.ParseAlgos.handle, LexVerif.Model.Ops.WriteAlgos.handle,
    LexVerif.Model.Ops.WriteFloat.handle]
 
 def modelOf (feats : Features) (t : List String) : String :=
